@@ -104,9 +104,18 @@ type Input struct {
 	Deadline    uint64      `json:"deadline"`
 	// how long the accounts provider and the account's RANDAO signing take (ms of fake time; they
 	// matter when Prepare calls of several duties overlap)
-	AccLat  uint64   `json:"acc_lat,omitempty"`
-	SignLat uint64   `json:"sign_lat,omitempty"`
-	Tags    []string `json:"tags,omitempty"`
+	AccLat  uint64 `json:"acc_lat,omitempty"`
+	SignLat uint64 `json:"sign_lat,omitempty"`
+	// how long the providers asked by Propose take to give their answers (ms of fake time); like real
+	// clients they give up with the context's error if the context ends first.  hangMs (or more) is
+	// a provider that never answers.
+	LatGraffiti uint64   `json:"lat_graffiti,omitempty"`
+	LatAuction  uint64   `json:"lat_auction,omitempty"`
+	LatProposal uint64   `json:"lat_proposal,omitempty"`
+	LatDomain   uint64   `json:"lat_domain,omitempty"`
+	LatSign     uint64   `json:"lat_sign,omitempty"`
+	LatSubmit   uint64   `json:"lat_submit,omitempty"`
+	Tags        []string `json:"tags,omitempty"`
 	// A history on ONE service instance: the further duties this same proposer service (and signer)
 	// handles, each with its own environment answers, and the order of the Prepare / Propose calls.
 	// Duty 0 is this input, duty k is Others[k-1].  What belongs to the service's construction (spe,
@@ -138,7 +147,66 @@ type Obs struct {
 	Events     []Event  `json:"events"`
 	Calls      [][]Call `json:"calls"`
 	Submit     *Submit  `json:"submit"`
-	Ret        uint64   `json:"ret"`
+	// Calls[..].Start, Submit.At and Ret are in ms after T0, the instant the last sequential answer
+	// (graffiti, auction, proposal, domain, signature) was given; Ret is the instant Propose returned
+	// or, if it submitted, handed the block to the submitter; RetAbs the instant it returned
+	Ret    uint64 `json:"ret"`
+	T0     uint64 `json:"t0"`
+	RetAbs uint64 `json:"ret_abs"`
+	Cut    Cuts   `json:"cut"`
+	SubCut bool   `json:"sub_cut"`
+}
+
+// a provider that never answers (until the context is done)
+const hangMs = 10000000
+
+// seqEnd: the instant the signature is back if Propose hands its own context to every step, and
+// whether no answer is cut before (the forward pass of the model's cuts_of)
+func seqEnd(in *Input) (uint64, bool) {
+	lats := []uint64{0, 0, in.LatProposal, in.LatDomain, in.LatSign}
+	if in.Graffiti != "none" {
+		lats[0] = in.LatGraffiti
+	}
+	if in.Auction != "none" {
+		lats[1] = in.LatAuction
+	}
+	t, ok := uint64(0), true
+	for _, l := range lats {
+		if t+l >= in.Deadline {
+			ok = false
+			if t < in.Deadline {
+				t = in.Deadline
+			}
+			continue
+		}
+		t += l
+	}
+	return t, ok
+}
+
+// no answer of a step is due at the very instant the context ends
+func stepTieFree(in *Input) bool {
+	lats := []uint64{0, 0, in.LatProposal, in.LatDomain, in.LatSign}
+	if in.Graffiti != "none" {
+		lats[0] = in.LatGraffiti
+	}
+	if in.Auction != "none" {
+		lats[1] = in.LatAuction
+	}
+	t := uint64(0)
+	for _, l := range lats {
+		if t < in.Deadline && t+l == in.Deadline {
+			return false
+		}
+		if t+l >= in.Deadline {
+			if t < in.Deadline {
+				t = in.Deadline
+			}
+			continue
+		}
+		t += l
+	}
+	return true
 }
 
 // ---------------------------------------------------------------------------------------------
@@ -149,8 +217,9 @@ type Obs struct {
 // relays and away from the deadline, so that no two goroutines act at one fake instant.
 func finishTimes(in *Input) [][]uint64 {
 	res := make([][]uint64, len(in.Relays))
+	t0, _ := seqEnd(in)
 	for i, r := range in.Relays {
-		start := uint64(0)
+		start := t0 // the relays are asked when the signature is there
 		for k := 0; k < 3; k++ {
 			out := UOut{Kind: "err"}
 			if k < len(r.Script) {
@@ -175,6 +244,9 @@ func finishTimes(in *Input) [][]uint64 {
 }
 
 func tieFree(in *Input) bool {
+	if !stepTieFree(in) {
+		return false
+	}
 	fts := finishTimes(in)
 	// two relays' calls returning at one instant probe the semaphore at one instant
 	seen := map[uint64]bool{}
@@ -236,6 +308,9 @@ func horizon(in *Input) time.Duration {
 	if in.Deadline > max {
 		max = in.Deadline
 	}
+	// a submission that takes its time, relays started later than planned (a tree under test may
+	// take longer over the sequential steps than the model)
+	max += in.Deadline
 	return time.Duration(max+2000) * time.Millisecond
 }
 
@@ -492,7 +567,8 @@ func runSession(t *testing.T, in *Input) []Obs {
 						}()
 						svc.Propose(ctx, duty)
 					}()
-					o.Ret = w.rec.now()
+					o.RetAbs = w.rec.now()
+					o.Ret = w.rec.since()
 					// let every relay goroutine finish
 					if rest := horizon(d) - time.Since(w.rec.start); rest > 0 {
 						time.Sleep(rest)
@@ -503,6 +579,10 @@ func runSession(t *testing.T, in *Input) []Obs {
 					o.Events = w.rec.events
 					o.Calls = w.rec.calls
 					o.Submit = w.rec.submit
+					if o.Submit != nil {
+						o.Ret = o.Submit.At
+					}
+					o.T0, o.Cut, o.SubCut = w.rec.t0, w.rec.cut, w.rec.subCut
 					w.proposing = false
 					w.rec.mu.Unlock()
 					done[k] = true
@@ -688,14 +768,23 @@ func obsTerm(o *Obs) string {
 }
 
 func caseTerm(id uint64, in *Input, o *Obs) string {
+	times, live := make([]string, len(o.Events)), make([]string, len(o.Events))
+	for i, e := range o.Events {
+		times[i], live[i] = N(e.At), Bool(e.Live)
+	}
 	return Record("c_id", N(id),
 		"c_cfg", Record("c_unblind_all", Bool(in.UnblindAll), "c_boost", N(in.Boost), "c_spe", N(in.SPE)),
 		"c_env", envTerm(in),
+		"c_lat", Record("l_graffiti", N(in.LatGraffiti), "l_auction", N(in.LatAuction), "l_proposal", N(in.LatProposal),
+			"l_domain", N(in.LatDomain), "l_sign", N(in.LatSign), "l_submit", N(in.LatSubmit)),
 		"c_duty", Record("d_slot", N(in.Slot), "d_validator", N(in.Validator), "d_account", optN(in.PreAccount), "d_randao", N(in.PreRandao)),
 		"c_prepare", Bool(in.DoPrepare),
 		"c_prep_events", eventsTerm(o.PrepEvents), "c_prep_ok", Bool(o.PrepOK),
 		"c_post_account", optN(o.PostAccount), "c_post_randao", N(o.PostRandao),
-		"c_obs", obsTerm(o))
+		"c_cut", Record("x_graffiti", Bool(o.Cut.Graffiti), "x_auction", Bool(o.Cut.Auction), "x_proposal", Bool(o.Cut.Proposal),
+			"x_domain", Bool(o.Cut.Domain), "x_sign", Bool(o.Cut.Sign)),
+		"c_times", List(times), "c_live", List(live), "c_t0", N(o.T0),
+		"c_obs", obsTerm(o), "c_ret", N(o.RetAbs), "c_sub_cut", Bool(o.SubCut))
 }
 
 // ---------------------------------------------------------------------------------------------
@@ -765,6 +854,60 @@ func genRelays(r *Rand, in *Input) {
 			sc[k] = o
 		}
 		in.Relays[i].Script = sc
+	}
+}
+
+// genLats: how long the graffiti provider, the auctioneer, the beacon node, the domain provider, the
+// account and the submitter take.  The ms part of every latency is at most 150 and every deadline ends
+// in 999, so no answer of a sequential step is due at the very instant the context ends.
+func genLats(r *Rand, in *Input) {
+	small := func() uint64 { return uint64(r.Range(0, 150)) }
+	switch k := r.Intn(20); {
+	case k < 9:
+		return // every provider answers at once
+	case k < 13:
+		in.LatGraffiti, in.LatAuction, in.LatProposal, in.LatDomain, in.LatSign, in.LatSubmit = small(), small(), small(), small(), small(), small()
+		in.Tags = append(in.Tags, "lat:small")
+		return
+	}
+	if r.Bool() {
+		in.LatGraffiti, in.LatAuction, in.LatProposal, in.LatDomain, in.LatSign, in.LatSubmit = small(), small(), small(), small(), small(), small()
+	}
+	// one or two slow (or hanging) steps
+	n := 1
+	if r.Chance(1, 4) {
+		n = 2
+	}
+	for ; n > 0; n-- {
+		slow := uint64(r.Range(0, int(in.Deadline/1000)+1))*1000 + small()
+		if r.Chance(1, 3) {
+			// within the context, but longer than a second or two
+			slow = uint64(r.Range(1, int(in.Deadline/1000)))*1000 + small()
+		}
+		kind := "slow"
+		if r.Chance(1, 6) {
+			slow, kind = hangMs, "hang"
+		}
+		switch []int{0, 0, 0, 0, 1, 1, 1, 2, 2, 3, 4, 5, 5}[r.Intn(13)] {
+		case 0:
+			in.LatGraffiti = slow
+			in.Tags = append(in.Tags, "lat:"+kind+":graffiti")
+		case 1:
+			in.LatAuction = slow
+			in.Tags = append(in.Tags, "lat:"+kind+":auction")
+		case 2:
+			in.LatProposal = slow
+			in.Tags = append(in.Tags, "lat:"+kind+":proposal")
+		case 3:
+			in.LatDomain = slow
+			in.Tags = append(in.Tags, "lat:"+kind+":domain")
+		case 4:
+			in.LatSign = slow
+			in.Tags = append(in.Tags, "lat:"+kind+":sign")
+		default:
+			in.LatSubmit = slow
+			in.Tags = append(in.Tags, "lat:"+kind+":submit")
+		}
 	}
 }
 
@@ -892,6 +1035,17 @@ func genDuty(r *Rand, fix func(*Input)) Input {
 		}
 		in.Proposal = p
 	}
+	// is there an auctioneer, and does the auction fail
+	switch k := r.Intn(20); {
+	case k < 1:
+		in.Auction = "none"
+	case k < 3:
+		in.Auction = "err"
+	default:
+		in.Auction = "ok"
+	}
+	// how long the providers take
+	genLats(r, &in)
 	// relays and the auction
 	for {
 		genRelays(r, &in)
@@ -903,13 +1057,7 @@ func genDuty(r *Rand, fix func(*Input)) Input {
 	for i := range idx {
 		idx[i] = i
 	}
-	switch k := r.Intn(20); {
-	case k < 1:
-		in.Auction = "none"
-	case k < 3:
-		in.Auction = "err"
-	default:
-		in.Auction = "ok"
+	if in.Auction == "ok" {
 		in.All = subset(r, idx, 3)
 		if r.Chance(3, 4) {
 			in.All = idx
@@ -1197,6 +1345,22 @@ func count(col *Collector, in *Input, o *Obs) {
 	col.Count(fmt.Sprintf("account:plain=%v", in.Plain))
 	col.Count("graffiti:" + in.Graffiti)
 	col.Count("auction:" + in.Auction)
+	lat := false
+	for _, tg := range in.Tags {
+		if len(tg) > 4 && tg[:4] == "lat:" {
+			col.Count(tg)
+			lat = true
+		}
+	}
+	if !lat {
+		col.Count("lat:instant")
+	}
+	if _, ok := seqEnd(in); !ok {
+		col.Count("lat:an-answer-is-due-after-the-deadline")
+	}
+	if o.Cut != (Cuts{}) || o.SubCut {
+		col.Count("observed:an-answer-cut-by-the-context")
+	}
 	col.Count(fmt.Sprintf("relays:%d", len(in.Relays)))
 	for _, r := range in.Relays {
 		for _, s := range r.Script {
